@@ -65,16 +65,17 @@ BOUNDS = {
              "residual_flux_fraction_map: shapes with <= 6 pixels; sky level symbolic => both the `!= 0` and the `== 0` branch of FitImaging.data are explored; both modes: slim-stored arrays with "
              "use_mask_in_fit=False and native-stored arrays with use_mask_in_fit=True. Signal-to-noise map: shapes with <= 4 pixels (its clipping forks "
              "per pixel). fit_util functions directly on plain arrays: all masks of shapes with <= 6 pixels, every array entry and the 5 evidence terms "
-             "symbolic. Evidence: real AbstractInversion over mock linear objects, object lists R1,R2,U1,U1U1,R2U1,U1R2,R1R2,U1R2U1,R1U1R1,U1U1R2,R1U1R1U1 "
-             "(R/U = regularized/unregularized object, digit = number of parameters), symmetric curvature matrix F, regularization blocks H_i and "
+             "symbolic. Evidence: real AbstractInversion over mock linear objects, object lists M1,R2,U1,U1N1,M2U1,U1M2,R1M2,M1R2,U1M2U1,R1U1M1,U1N1R2,M1U1R1U1,R1N1 "
+             "(R/U = regularized/unregularized list of linear functions i.e. a NON-mapper, M/N = regularized/unregularized pixelization mapper, "
+             "digit = number of parameters; 'restricted to regularized parameters' is thereby distinguished from 'restricted to mappers'), symmetric curvature matrix F, regularization blocks H_i and "
              "reconstruction s fully symbolic, combined with all masks of 2x2 in both modes and symbolic sky. Read-order / history independence: on ONE "
              "fit object the quantities are read in two orders (derived maps signal_to_noise_map, residual_flux_fraction_map, normalized and chi-squared "
              "maps BEFORE residual_map/chi_squared/log_likelihood/log_evidence/figure_of_merit; and statistics first, derived maps next, statistics again), "
              "every read compared with its definition, and afterwards dataset.data / dataset.noise_map / model_data must still equal their input terms; "
              "all masks of shapes with <= 4 pixels, both modes, data of either sign, sky symbolic (zero and non-zero branch), without inversion and "
-             "(<= 3 pixels) with the object list U1R1",
+             "(<= 3 pixels) with the object lists U1R1 / R1M1",
     "thorough": "same, shapes additionally 2x4,4x2,1x7,2x5,3x4 for the fit statistics (residual-flux-fraction <= 10 pixels incl. 3x3, signal-to-noise <= 6 pixels, "
-                "fit_util <= 10 pixels); evidence additionally for object lists R3,U2R2,R2U2,U1R1U1R1,R2R2,U2R1U1,R1R1R1,U1R3U1,R1U2R1 and masks of 2x3; read-order cases additionally 1x4 (both modes) and "
+                "fit_util <= 10 pixels); evidence additionally for object lists R3,M2,U2M2,R2U2,U1R1N1M1,M2R2,R2R1,M1M2,U2M1U1,R1M1R1,U1M3U1,M1U2R1,N2R1 and masks of 2x3; read-order cases additionally 1x4 (both modes) and "
                 "2x3 (slim mode), with inversion up to 4 pixels",
 }
 OUTSIDE = [
@@ -556,8 +557,14 @@ def case_util(ctx, H, W, part):
 # ---------------------------------------------------------------------------- case 4: evidence with an inversion
 
 def _parse_objs(config):
-    """'U1R2U1' -> [(False, 1), (True, 2), (False, 1)]  (R = regularized linear object, U = unregularized, digit = parameters)"""
-    return [(config[i] == "R", int(config[i + 1])) for i in range(0, len(config), 2)]
+    """'U1M2N1' -> [(False, 1), (True, 2), (False, 1)]: (regularized?, parameters) per linear object.
+    R / U = regularized / unregularized list of linear functions (AbstractLinearObjFuncList, NOT a mapper),
+    M / N = regularized / unregularized pixelization mapper (AbstractMapper); digit = number of parameters"""
+    return [(config[i] in "RM", int(config[i + 1])) for i in range(0, len(config), 2)]
+
+
+def _is_mapper(config):
+    return [config[i] in "MN" for i in range(0, len(config), 2)]
 
 
 def _sym_matrix(a, P):
@@ -577,17 +584,19 @@ def _logdet(M):
     return float(ld)
 
 
-def _make_inversion(objs, Hm, Fm, s):
+def _make_inversion(objs, Hm, Fm, s, mappers=None):
     """the real AbstractInversion over mock linear objects; curvature matrix F and reconstruction s are handed in through
     the cached-property slots (they belong to C04/C05), the regularization matrix is assembled by the real code"""
     from autoarray.inversion.inversion.abstract import AbstractInversion
     from autoarray.inversion.inversion.dataset_interface import DatasetInterface
-    from autoarray.inversion.mock.mock_linear_obj import MockLinearObj
+    from autoarray.inversion.mock.mock_linear_obj_func_list import MockLinearObjFuncList
+    from autoarray.inversion.mock.mock_mapper import MockMapper
     from autoarray.inversion.mock.mock_regularization import MockRegularization
     lin, o = [], 0
-    for reg, k in objs:
+    for idx, (reg, k) in enumerate(objs):
         block = _as_values(np.array([[Hm[o + i][o + j] for j in range(k)] for i in range(k)], dtype=object))
-        lin.append(MockLinearObj(parameters=k, regularization=MockRegularization(regularization_matrix=block) if reg else None))
+        cls = MockMapper if (mappers and mappers[idx]) else MockLinearObjFuncList
+        lin.append(cls(parameters=k, regularization=MockRegularization(regularization_matrix=block) if reg else None))
         o += k
     inv = AbstractInversion(dataset=DatasetInterface(data=None, noise_map=None), linear_obj_list=lin)
     P = o
@@ -602,7 +611,7 @@ def body_evidence(inp, H, W, native, config):
     Fm = _sym_matrix(inp["F"], P)
     Hm = _sym_matrix(inp["Hb"], P)
     s = list(np.asarray(inp["s"], dtype=object).reshape(P))
-    inv = _make_inversion(objs, Hm, Fm, s)
+    inv = _make_inversion(objs, Hm, Fm, s, _is_mapper(config))
     mask, pos, fit = _make_fit(inp, H, W, native, inversion=inv)
     dd, nn, mm = _ref_pixels(inp, H, W, pos)
     chi2 = _sum([((a - b) / q) * ((a - b) / q) for a, b, q in zip(dd, mm, nn)])
@@ -649,7 +658,9 @@ def _abs(t):
 
 
 def _assume_spd(ctx, inputs, config):
-    """only for the native cross-validation / replays (LAPACK needs positive definite matrices): strict diagonal dominance.
+    """only for the native cross-validation / replays (LAPACK needs positive definite matrices): strict diagonal dominance;
+    the H blocks with margin 2, so every eigenvalue is >= 2 and log det(block) >= k*log 2 > 0 - a solver model whose blocks
+    are identities would make 'a regularized block was dropped from log det H' invisible in the float64 replay.
     Kept in a group of their own, i.e. NOT assumed by the obligations (those hold for every F, H)."""
     objs = _parse_objs(config)
     P = sum(k for _, k in objs)
@@ -659,7 +670,7 @@ def _assume_spd(ctx, inputs, config):
     o = 0
     for reg, k in objs:
         for i in range(k):
-            ctx.assume(Hm[o + i][o + i].t >= 1 + z3.Sum([_abs(Hm[o + i][o + j].t) for j in range(k) if j != i] + [z3.RealVal(0)]), group="spd")
+            ctx.assume(Hm[o + i][o + i].t >= 2 + z3.Sum([_abs(Hm[o + i][o + j].t) for j in range(k) if j != i] + [z3.RealVal(0)]), group="spd")
         o += k
 
 
@@ -697,7 +708,7 @@ def body_order(inp, H, W, native, order, config):
         P = sum(k for _, k in objs)
         Fm, Hm = _sym_matrix(inp["F"], P), _sym_matrix(inp["Hb"], P)
         sv = list(np.asarray(inp["s"], dtype=object).reshape(P))
-        inv = _make_inversion(objs, Hm, Fm, sv)
+        inv = _make_inversion(objs, Hm, Fm, sv, _is_mapper(config))
     mask, pos, fit = _make_fit(inp, H, W, native, inversion=inv)
     dd, nn, mm = _ref_pixels(inp, H, W, pos)
     res = [a - b for a, b in zip(dd, mm)]
@@ -765,8 +776,8 @@ def case_order(ctx, H, W, native, order, config):
 BODIES = {"case_fit": body_fit, "case_snr": body_snr, "case_rff": body_rff, "case_util": body_util, "case_evidence": body_evidence,
           "case_order": body_order}
 
-CONFIGS_Q = ["R1", "R2", "U1", "U1U1", "R2U1", "U1R2", "R1R2", "U1R2U1", "R1U1R1", "U1U1R2", "R1U1R1U1"]
-CONFIGS_T = CONFIGS_Q + ["R3", "U2R2", "R2U2", "U1R1U1R1", "R2R2", "U2R1U1", "R1R1R1", "U1R3U1", "R1U2R1"]
+CONFIGS_Q = ["M1", "R2", "U1", "U1N1", "M2U1", "U1M2", "R1M2", "M1R2", "U1M2U1", "R1U1M1", "U1N1R2", "M1U1R1U1", "R1N1"]
+CONFIGS_T = CONFIGS_Q + ["R3", "M2", "U2M2", "R2U2", "U1R1N1M1", "M2R2", "R2R1", "M1M2", "U2M1U1", "R1M1R1", "U1M3U1", "M1U2R1", "N2R1"]
 
 
 def cases(tier):
@@ -794,7 +805,7 @@ def cases(tier):
                 out.append(("case_order", {"H": H, "W": W, "native": native, "order": order, "config": None},
                             {"split": 0 if n < 4 else (3 if n == 4 else 5)}))
                 if n <= (3 if quick else 4):
-                    out.append(("case_order", {"H": H, "W": W, "native": native, "order": order, "config": "U1R1"},
+                    out.append(("case_order", {"H": H, "W": W, "native": native, "order": order, "config": "U1R1" if order == "derived_first" else "R1M1"},
                                 {"split": 0 if n < 4 else 3}))
     for config in (CONFIGS_Q if quick else CONFIGS_T):
         for native in (False, True):
